@@ -131,7 +131,13 @@ def run_history(ctx, rng, nops, script=None):
         # queries
         t = twin_of(w)
         before = state_snapshot(w)
-        q = forced or rng.choice(["call", "invert", "numinv", "numinv", "in_image", "in_image", "footprint", "to_fits_sip", "get_transform", "props", "str"])
+        q = forced or rng.choice(["call", "invert", "numinv", "numinv", "in_image", "in_image", "footprint", "to_fits_sip", "get_transform", "props", "str",
+                                  "to_fits_sip_args", "footprint_args", "to_fits_args", "fix_inputs"])
+        # mutable arguments handed to a query (arrays, lists, dicts): the same objects are passed to the WCS and then to the twin, so a
+        # query that edits them shows both as changed arguments and as a differing answer
+        margs = {"crpix": np.array([400.0, 300.0]), "box": [[-0.5, 899.5], [-0.5, 699.5]], "boxarr": np.array([[10.0, 500.0], [20.0, 400.0]]),
+                 "fixed": {0: 12.0}}
+        margs0 = copy.deepcopy(margs)
         ax, ay = xs.copy(), ys.copy()
         def both(f):
             out = []
@@ -155,6 +161,12 @@ def run_history(ctx, rng, nops, script=None):
                 "footprint": lambda o: o.footprint(),
                 "to_fits_sip": lambda o: o.to_fits_sip(degree=2, npoints=8),
                 "get_transform": lambda o: o.get_transform(o.available_frames[0], o.available_frames[-1])(ax, ay),
+                "to_fits_sip_args": lambda o: o.to_fits_sip(bounding_box=margs["box"], crpix=margs["crpix"], degree=2, npoints=8,
+                                                            max_inv_pix_error=None),
+                "to_fits_args": lambda o: o.to_fits(bounding_box=margs["box"], crpix=margs["crpix"], degree=2, npoints=8,
+                                                    max_inv_pix_error=None)[0],
+                "footprint_args": lambda o: o.footprint(bounding_box=margs["boxarr"]),
+                "fix_inputs": lambda o: o.fix_inputs(margs["fixed"])(ay),
                 "props": lambda o: (o.pixel_n_dim, o.world_n_dim, o.pixel_bounds, o.array_shape, o.world_axis_physical_types,
                                     o.world_axis_units, np.asarray(o.axis_correlation_matrix).tolist(), o.available_frames),
                 "str": lambda o: (str(o), repr(o)),
@@ -164,13 +176,13 @@ def run_history(ctx, rng, nops, script=None):
             ok = False
         elif ka == "err":
             ok = True
-        elif q in ("call", "footprint", "get_transform"):
+        elif q in ("call", "footprint", "get_transform", "footprint_args", "fix_inputs"):
             ok = close(a, b, 0)
         elif q in ("invert", "numinv"):
             ok = close(a, b, 1e-4)
         elif q == "in_image":
             ok = np.array_equal(a, b)
-        elif q == "to_fits_sip":
+        elif q in ("to_fits_sip", "to_fits_sip_args", "to_fits_args"):
             ok = (list(a.keys()) == list(b.keys()) and
                   all((a[k] == b[k]) or (isinstance(a[k], float) and abs(a[k] - b[k]) <= 1e-9 * max(1, abs(b[k]))) for k in a.keys()))
         else:
@@ -184,10 +196,16 @@ def run_history(ctx, rng, nops, script=None):
                 iter_before_edit = True
         hist.append(q)
         if not ok:
-            show = (lambda v: str(np.asarray(v).tolist())[:200]) if q not in ("props", "str", "to_fits_sip") else (lambda v: str(v)[:200])
+            show = (lambda v: str(np.asarray(v).tolist())[:200]) if q not in ("props", "str", "to_fits_sip", "to_fits_sip_args", "to_fits_args") else (lambda v: str(v)[:200])
             problems.append((f"answer of `{q}` differs from a fresh twin with the same pipeline/box: {show(a)} vs {show(b)}", list(hist)))
         if not (np.array_equal(ax, xs) and np.array_equal(ay, ys)):
             problems.append((f"{q} changed the caller's arguments", list(hist)))
+        for k in margs:
+            if not (type(margs[k]) is type(margs0[k]) and np.array_equal(np.asarray(list(margs[k].items()) if isinstance(margs[k], dict)
+                                                                                    else margs[k]),
+                                                                         np.asarray(list(margs0[k].items()) if isinstance(margs0[k], dict)
+                                                                                    else margs0[k]))):
+                problems.append((f"{q} changed the caller's `{k}` argument from {margs0[k]} to {margs[k]}", list(hist)))
         if state_snapshot(w) != before:
             problems.append((f"query `{q}` changed pipeline / parameters / box / shape", list(hist)))
     return hist, problems, (iter_before_edit and iter_after_edit)
@@ -320,7 +338,8 @@ def run(ctx):
             allprob.append((f"numerical_inverse; insert_transform('world', Shift(40)&Scale(-1)); numerical_inverse -> "
                             f"{np.asarray(a).tolist()} but a fresh twin gives {np.asarray(b).tolist()}", corpus, "C08/stale-approx-inverse"))
     # exhaustive family of short histories: [query; edit; query] for every (query, edit) pair
-    QS = ["call", "invert", "numinv", "in_image", "footprint", "to_fits_sip", "get_transform", "props", "str"]
+    QS = ["call", "invert", "numinv", "in_image", "footprint", "to_fits_sip", "get_transform", "props", "str",
+          "to_fits_sip_args", "footprint_args", "to_fits_args", "fix_inputs"]
     ES = ["E_insert_transform", "E_set_transform", "E_insert_frame", "E_repoint", "E_bbox", "E_bbox_none"]
     for q in QS:
         for e in ES:
